@@ -289,45 +289,7 @@ def roots_programs():
 # independent Python-API render of an unrelated component and discards the result; the unrelated render succeeds,
 # fails in get_context_data, fails in its on_render_after, or fails in a nested child (the application catches the
 # error).  The page's ids must be exactly what they are without the side renders.
-SIDE_KINDS = ("ok", "fail", "fail_late", "fail_child")
-SIDE_POS = ("before", "after")
-_SIDE = {}
-
-
-def _side_classes():
-    if _SIDE:
-        return _SIDE
-    from django_components import Component
-    from django_components.component_registry import registry
-
-    def boom(self, *a, **kw):
-        raise ValueError("side render fails")
-
-    tpl = "<i>s</i>{% component 'c14sidechild' / %}<i>t</i>"
-    for name, okcls in (("c14sidechild", True), ("c14sidechild_bad", False)):
-        if name in registry.all():
-            registry.unregister(name)
-        attrs = {"template": "<u>child</u>", "__module__": "verif_c14"}
-        if not okcls:
-            attrs["get_context_data"] = boom
-        registry.register(name, type("C14Side_" + name, (Component,), attrs))
-    _SIDE["ok"] = type("C14SideOk", (Component,), {"template": tpl, "__module__": "verif_c14"})
-    _SIDE["fail"] = type("C14SideFail", (Component,), {"template": tpl, "get_context_data": boom, "__module__": "verif_c14"})
-    _SIDE["fail_late"] = type("C14SideFailLate", (Component,), {"template": tpl, "on_render_after": boom, "__module__": "verif_c14"})
-    _SIDE["fail_child"] = type("C14SideFailChild", (Component,), {"template": tpl.replace("c14sidechild", "c14sidechild_bad"), "__module__": "verif_c14"})
-    return _SIDE
-
-
-def side_attrs(prog, pos, kind):
-    cls = _side_classes()[kind]
-
-    def side(self, *a, **kw):
-        try:
-            cls.render(render_dependencies=False)
-        except ValueError:
-            pass
-
-    return {name: {"on_render_" + pos: side} for name in prog.comps}
+from mc.prog import SIDE_KINDS, SIDE_POS, side_attrs  # noqa: E402
 
 
 def roots_worker(w, W, payload):
